@@ -115,6 +115,8 @@ def _boundary(prog, C, stmts):
     from ..inline import flatten, walk_events
     order = []
     for e in flatten(prog, C, stmts, exclude=RUNNERS + ("aln_continue",)):
+        if e[0] == "call" and not e[1]:
+            raise AnalysisBroken("R07a: aln_continue recurses through a function pointer; which runner is called is not decided")
         if e[0] == "store":
             m = re.match(r"^\w+->(f|b)\[0\]\.(a|ga|gb)$", e[1])
             if m and e[2] is not None:
